@@ -428,6 +428,26 @@ func (x *Exec) blockingPoint(st *State, in ssa.Instruction, kind, text string, c
 			}
 			o := x.oblig(fmt.Sprintf("blocks-until[select has %s.Done()]@%s", strings.TrimPrefix(eff, "until "), x.srcOf(in)), "effect", x.effectTags(), in.Pos())
 			x.Assert(st, o, Or(alts...))
+			// opt also-until=<ctx expr>: every blocking select must ALSO contain that context's Done()
+			// (a waiting caller is released by its own context and by the node being closed)
+			if also := x.fc.Opts["also-until"]; also != "" {
+				c, err := parseClause(also, x.fc.File, x.fc.Line)
+				if err != nil {
+					panic(specErr{err.Error()})
+				}
+				env := x.envAt(x.entry)
+				env.st = x.entry
+				env.paramsEntry = true
+				t2 := x.evalTerm(env, c)
+				var alts2 []Term
+				for _, ch := range chans {
+					if ctx, ok := st.doneOf[ch.S]; ok {
+						alts2 = append(alts2, Eq(ctx, t2))
+					}
+				}
+				o2 := x.oblig(fmt.Sprintf("blocks-until[select also has %s.Done()]@%s", also, x.srcOf(in)), "effect", x.effectTags(), in.Pos())
+				x.Assert(st, o2, Or(alts2...))
+			}
 			return
 		}
 		o := x.oblig(fmt.Sprintf("blocks-until[%s not guarded by %s]@%s", desc, strings.TrimPrefix(eff, "until "), x.srcOf(in)), "effect", x.effectTags(), in.Pos())
